@@ -382,8 +382,8 @@ func init() {
 		seed{Prop: "C03", Name: "optimal-does-not-stop-at-zero", File: "solver/solver.go",
 			Old: "\t\tif cost == 0 {\n\t\t\tbreak\n\t\t}\n", New: "", Expect: "R3.5"},
 		seed{Prop: "C03", Name: "minimize-hypothesis-not-negated", File: "solver/solver.go",
-			Old: "\t\ts.hypothesis[i] = lit.Negation()\n\t}\n\tweights := make([]int, len(s.minWeights))\n\tcopy(weights, s.minWeights)\n\tsort.Sort(wLits{lits: s.hypothesis, weights: weights})\n\ts.lastModel = make(Model, len(s.model))\n\tvar cost int\n\tfor status == Sat {\n\t\tcopy(s.lastModel, s.model) // Save this model: it might be the last one\n\t\tcost = 0\n\t\tfor i, lit := range s.minLits {\n\t\t\tif s.model[lit.Var()] > 0 == lit.IsPositive() {\n\t\t\t\tif s.minWeights == nil {\n\t\t\t\t\tcost++\n\t\t\t\t} else {\n\t\t\t\t\tcost += s.minWeights[i]\n\t\t\t\t}\n\t\t\t}\n\t\t}\n\t\tif cost == 0 {\n\t\t\treturn 0",
-			New: "\t\ts.hypothesis[i] = lit\n\t}\n\tweights := make([]int, len(s.minWeights))\n\tcopy(weights, s.minWeights)\n\tsort.Sort(wLits{lits: s.hypothesis, weights: weights})\n\ts.lastModel = make(Model, len(s.model))\n\tvar cost int\n\tfor status == Sat {\n\t\tcopy(s.lastModel, s.model) // Save this model: it might be the last one\n\t\tcost = 0\n\t\tfor i, lit := range s.minLits {\n\t\t\tif s.model[lit.Var()] > 0 == lit.IsPositive() {\n\t\t\t\tif s.minWeights == nil {\n\t\t\t\t\tcost++\n\t\t\t\t} else {\n\t\t\t\t\tcost += s.minWeights[i]\n\t\t\t\t}\n\t\t\t}\n\t\t}\n\t\tif cost == 0 {\n\t\t\treturn 0", Expect: "R3.5"},
+			Old: "\t\ts.hypothesis[i] = lit.Negation()\n\t}\n\tweights := make([]int, len(s.minLits))\n\tif s.minWeights == nil { // All weights are 1\n\t\tfor i := range weights {\n\t\t\tweights[i] = 1\n\t\t}\n\t} else {\n\t\tcopy(weights, s.minWeights)\n\t}\n\tsort.Sort(wLits{lits: s.hypothesis, weights: weights})\n\ts.lastModel = make(Model, len(s.model))\n\tvar cost int\n\tfor status == Sat {\n\t\tcopy(s.lastModel, s.model) // Save this model: it might be the last one\n\t\tcost = 0\n\t\tfor i, lit := range s.minLits {\n\t\t\tif s.model[lit.Var()] > 0 == lit.IsPositive() {\n\t\t\t\tif s.minWeights == nil {\n\t\t\t\t\tcost++\n\t\t\t\t} else {\n\t\t\t\t\tcost += s.minWeights[i]\n\t\t\t\t}\n\t\t\t}\n\t\t}\n\t\tif cost == 0 {\n\t\t\treturn 0",
+			New: "\t\ts.hypothesis[i] = lit\n\t}\n\tweights := make([]int, len(s.minLits))\n\tif s.minWeights == nil { // All weights are 1\n\t\tfor i := range weights {\n\t\t\tweights[i] = 1\n\t\t}\n\t} else {\n\t\tcopy(weights, s.minWeights)\n\t}\n\tsort.Sort(wLits{lits: s.hypothesis, weights: weights})\n\ts.lastModel = make(Model, len(s.model))\n\tvar cost int\n\tfor status == Sat {\n\t\tcopy(s.lastModel, s.model) // Save this model: it might be the last one\n\t\tcost = 0\n\t\tfor i, lit := range s.minLits {\n\t\t\tif s.model[lit.Var()] > 0 == lit.IsPositive() {\n\t\t\t\tif s.minWeights == nil {\n\t\t\t\t\tcost++\n\t\t\t\t} else {\n\t\t\t\t\tcost += s.minWeights[i]\n\t\t\t\t}\n\t\t\t}\n\t\t}\n\t\tif cost == 0 {\n\t\t\treturn 0", Expect: "R3.5"},
 		seed{Prop: "C03", Name: "optimal-constraint-on-shared-weights", File: "solver/solver.go",
 			Old: "\t\tcopy(weights2, weights)\n\t\ts.AppendClause(NewPBClause(lits2, weights2, maxCost-cost+1))\n\t\ts.rebuildOrderHeap()\n\t\tstatus = s.Solve()\n\t}\n\treturn res",
 			New: "\t\tcopy(weights2, weights)\n\t\ts.AppendClause(NewPBClause(lits2, weights, maxCost-cost+1))\n\t\ts.rebuildOrderHeap()\n\t\tstatus = s.Solve()\n\t}\n\treturn res", Expect: "R3.5"},
